@@ -10,7 +10,7 @@ EXTENDS Ffldb
 \* exactly these serialized lengths.
 \* The order in which transaction.writePendingAndCommit deletes pruned block
 \* files, as in the code under test (see Ffldb.tla PruneLast).
-MC_PruneLast == FALSE
+MC_PruneLast == TRUE
 
 MC_RawLen == [b \in {"B1", "B2", "B3"} |-> IF b = "B3" THEN 174 ELSE 81]
 
